@@ -23,6 +23,15 @@ def main():
                 for bb in f.raw_blocks:
                     f.block(bb); n += 1
         print(f"parsed {n} MIR basic blocks")
+        # translator validation: std models vs the native run of mirsym/selftest (pinned-input mode; informative, not a property)
+        try:
+            p = subprocess.run([sys.executable, os.path.join(scratch.VERIF, "mirsym", "selftest.py")], capture_output=True, text=True, timeout=900,
+                               env=dict(os.environ, SELFTEST_SYMBOLIC="0"))
+            print((p.stdout.strip().splitlines() or ["selftest: no output"])[-1])
+            for l in p.stdout.splitlines():
+                if l.startswith("!!"): print("  " + l)
+        except Exception as e:
+            print("selftest not run:", repr(e)[:200])
     finally:
         scratch.remove_scratch(sc)
     print(f"setup ok in {time.time()-t0:.0f}s")
